@@ -543,6 +543,71 @@ func runC13(c *h.Ctx) {
 		}
 	}
 	// unary over sequences with a non-numeric member at each position; singleton rule for binary operators
+	// an operand that IS an array (not its elements selected by [*]): lax mode
+	// unwraps it one level, and every element counts - null, too
+	for i, sq := range []string{`[null,3]`, `[3,null]`, `[null]`, `[null,null,2]`, `[3]`, `[2,3]`, `[]`, `[[3]]`, `[[null,3]]`, `["x",3]`, `[3,"x"]`, `[null,"x"]`} {
+		if !c.Mine(i) {
+			continue
+		}
+		for _, useNum := range []bool{false, true} {
+			arr := h.Decode(sq, useNum).([]any)
+			for _, mode := range []string{"", "strict "} {
+				for _, form := range []string{"-$", "+$", "$ + 1", "1 - $", "$ * 2", "$.a / 1", "-$.a", "$ ? (@ + 1 == 4)", "$ ? (-@ < 0)"} {
+					p := cachedPath(mode + form)
+					var doc any = h.Decode(sq, useNum)
+					if strings.Contains(form, "$.a") {
+						doc = map[string]any{"a": doc}
+					}
+					if strings.Contains(form, "?") {
+						doc = []any{map[string]any{"w": 1.0}}[0:0] // placeholder, replaced below
+					}
+					unary := form[0] == '-' || form[0] == '+'
+					allNum, nums := true, 0
+					for _, el := range arr {
+						if h.IsNum(el) {
+							nums++
+						} else {
+							allNum = false
+						}
+					}
+					var expErr bool
+					switch {
+					case mode != "":
+						expErr = true // an array is not a number
+					case unary:
+						expErr = !allNum
+					default:
+						expErr = !(len(arr) == 1 && nums == 1)
+					}
+					if strings.Contains(form, "?") {
+						// as a filter condition on an item holding the array: @ is the array
+						// (wrapped once more so that the filter itself does not unwrap it)
+						fdoc := []any{h.Decode(sq, useNum)}
+						pf := cachedPath(mode + "$[0]" + strings.TrimPrefix(form, "$"))
+						of := h.Call("query", pf, fdoc, h.Opts{})
+						c.Eval(1)
+						// the filter unwraps its item in lax mode: @ ranges over the elements
+						if mode == "" {
+							c.Skip("singleton", "filter-unwraps-item")
+						} else if of.Class != h.OK || len(of.Items) != 0 {
+							c.Violate("singleton", h.F("form", form, "mode", mode), fmt.Sprintf("Query(%s) on [%s] = %s; the condition's operand is an array: unknown, nothing kept", mode+"$[0]"+strings.TrimPrefix(form, "$"), sq, of.Summary()), h.Case{Kind: "singleton", Path: mode + form, Doc: sq, UseNum: useNum})
+						} else {
+							c.Held("singleton")
+						}
+						continue
+					}
+					o := h.Call("query", p, doc, h.Opts{})
+					c.Eval(1)
+					cs := h.Case{Kind: "singleton", Path: mode + form, Doc: sq, UseNum: useNum}
+					if (o.Class == h.Soft) != expErr || (o.Class != h.Soft && o.Class != h.OK) {
+						c.Violate("singleton", h.F("form", form, "mode", mode, "operand", "array"), fmt.Sprintf("Query(%s) with the operand %s = %s; error expected: %v (every element of the unwrapped operand counts)", mode+form, sq, o.Summary(), expErr), cs)
+					} else {
+						c.Held("singleton")
+					}
+				}
+			}
+		}
+	}
 	seqs := []string{`[1,2,3]`, `["x",2,3]`, `[1,"x",3]`, `[1,2,"x"]`, `[1,null,3]`, `[1,[2],3]`, `[1,{},3]`, `[true]`, `[]`, `[1.5,-2]`}
 	for i, sq := range seqs {
 		if !c.Mine(i) {
